@@ -1,11 +1,11 @@
 """C07: a run's outcome depends only on bytecode, globals and arguments (tla/UgoLife.tla)."""
-import json
+import json, threading
 from lib import vlib
 
-RULE = ("histories: every sequence of up to 2 (thorough 3) runs over 12 scripts covering every termination kind (return, uncaught "
+RULE = ("histories: every sequence of up to 2 (thorough 3) runs over 19 scripts covering every termination kind (return, uncaught "
         "error through nested finally blocks, recovered Go panic, value-stack overflow, frame overflow, abort inside a nested call, "
-        "statement-position recursion ending in a throw, module state change, closures, error raised inside finally, error inside an "
-        "Invoker callback, deep recursion) x {nothing, Clear, SetBytecode, Clear+SetBytecode} x 8 residue-sensitive probes; TLC checks "
+        "statement-position recursion ending in a throw, module state change (source module, bytes / sync-map / array object modules, nested values of a builtin module), closures, error raised inside finally, error inside an "
+        "Invoker callback, deep recursion) x {nothing, Clear, SetBytecode, Clear+SetBytecode} x 12 residue-sensitive probes; TLC checks "
         "NoResidueRead on the component model and exports each history; the harness replays it on one real VM and compares the "
         "re-run of the last script and the probe with a new VM, and the canonical dump of every Bytecode before and after; "
         "non-trivial = histories whose last run did not end by a plain return")
@@ -13,15 +13,37 @@ RULE = ("histories: every sequence of up to 2 (thorough 3) runs over 12 scripts 
 def run(ctx):
     out = ctx.path("hist.ndjson")
     ctx.tlc("UgoLife", "UgoLife_quick" if ctx.quick else "UgoLife_thorough", env=dict(OUT=out), timeout=1800)
-    res = ctx.path("hist-res.ndjson")
-    ctx.vh("c07", out, res, timeout=3000)
+    # the replay is single-P on purpose (the process-wide pool then hands back the child VM released last);
+    # the histories are independent, so they are spread over several such processes
+    lines = open(out).read().splitlines()
+    nproc = 8
+    parts = []
+    for k in range(nproc):
+        part = ctx.path("hist-%d.ndjson" % k)
+        open(part, "w").write("\n".join(lines[k::nproc]) + "\n")
+        parts.append((part, ctx.path("hist-res-%d.ndjson" % k)))
+    ctx.build_harness()
+    errs = []
+    def work(pr):
+        try:
+            ctx.vh("c07", pr[0], pr[1], timeout=3000)
+        except Exception as e:   # reported below, on the main thread
+            errs.append(e)
+    ths = [threading.Thread(target=work, args=(pr,)) for pr in parts]
+    for t in ths:
+        t.start()
+    for t in ths:
+        t.join()
+    if errs:
+        raise errs[0]
     n = 0
-    for r in vlib.read_ndjson(res):
-        if r.get("done"):
-            n = r["n"]
-            ctx.cov["fresh_outcomes"] = {k: v[:80] for k, v in r["fresh"].items()}
-            continue
-        ctx.violation(vlib.sha(json.dumps(r["history"], sort_keys=True) + r["what"][:40]), "%s: %s" % (json.dumps(r["history"]), r["what"]), r)
+    for _, res in parts:
+        for r in vlib.read_ndjson(res):
+            if r.get("done"):
+                n += r["n"]
+                ctx.cov["fresh_outcomes"] = {k: v[:80] for k, v in r["fresh"].items()}
+                continue
+            ctx.violation(vlib.sha(json.dumps(r["history"], sort_keys=True) + r["what"][:40]), "%s: %s" % (json.dumps(r["history"]), r["what"]), r)
     if n == 0:
         raise vlib.Inconclusive("no histories replayed")
     hs = vlib.read_tlc_export(out)
